@@ -144,7 +144,7 @@ func counterFloors(tier string) map[string]int64 {
 		m["svg_fn_"+f] = 400 * k
 	}
 	if genSkew {
-		for _, f := range []string{"skew1", "skewX1", "skewY1"} {
+		for _, f := range []string{"skew1", "skew2", "skewX1", "skewY1"} {
 			m["css_fn_"+f] = 150 * k
 		}
 		m["svg_fn_skewX1"] = 400 * k
